@@ -75,7 +75,10 @@ def warm_start(
             # Time type variable needs special treatment
             if "units" in ncvar.ncattrs() and "since" in ncvar.units:
                 reftime = np.datetime64(ncvar.units.split("since")[1])
-                values = reftime + values * np.timedelta64(1, ncvar.units[0])
+                # Whole seconds (a float times a timedelta64 is truncated to
+                # whole units by numpy, and numpy has no unit "d")
+                seconds = dict(s=1, m=60, h=3600, d=86400)[ncvar.units[0]]
+                values = reftime + np.round(values * seconds).astype("m8[s]")
         # Variables not on file, but with defaults
         elif var in state.default_values:
             # print("Med default", var)
